@@ -157,6 +157,9 @@ class RecheckCheck:
             "self-checked by the reference verifier (100% on intact content)",
             "content parent directory never carries the torrent's own name "
             "(it does contain siblings whose names extend the torrent name)",
+            "one Checker object is asked twice, before and after the content "
+            "is repaired (real scale, first damage of each kind per world): "
+            "the second answer must be the intact one",
             "intact content is also given through a symbolic link named like "
             "the torrent whose target directory has another name",
             "entry points: Checker(metafile, path).results() everywhere; the "
@@ -355,6 +358,7 @@ class RecheckCheck:
         with tf.scale(B):
             files, parent, root, metas = self.setup_world(w, seed, fams)
             single = w["shape"] == "S1"
+            reuse_done = set()
             # the same payload reached through a symbolic link that carries
             # the torrent's name while the real directory is named otherwise
             linkroot = None
@@ -442,6 +446,51 @@ class RecheckCheck:
                                 "damage": [list(d) for d in dmg_set]},
                                 {"reported": got, "reference": want}))
                 self.write_state(root, files, changed, restore=True)
+                # the same Checker object asked again after the content was
+                # repaired (R scale, first damage of each kind per world)
+                if dmg_set and w["scale"] == "R" and \
+                        dmg_set[0][0] not in reuse_done:
+                    reuse_done.add(dmg_set[0][0])
+                    self.write_state(root, files, changed)
+                    for fam in fams:
+                        mpath, meta = metas[fam]
+                        if mpath is None:
+                            continue
+                        if single and changed.get(0, b"x") is None:
+                            continue
+                        try:
+                            with tf.quiet():
+                                c = tf.recheck.Checker(mpath, root)
+                                first = float(c.results())
+                            self.write_state(root, files, changed,
+                                             restore=True)
+                            with tf.quiet():
+                                second = float(c.results())
+                        except Exception as e:  # noqa
+                            first = second = None
+                        finally:
+                            self.write_state(root, files, changed)
+                        res.transitions += 2
+                        res.evals += 1
+                        res.validated += 1
+                        want0, _v, _t = model.recheck_model(
+                            meta, self.disk_of(files, {}), B)
+                        if second is not None and abs(second - want0) > 1e-9 \
+                                and self.id in ("C05", "C16"):
+                            ver = model.meta_version_of(meta[b"info"])
+                            found.append((
+                                f"{self.id}|{fam}|v{ver}|same-checker-object-"
+                                f"reports-stale-result|{e1.world_class(w)}|"
+                                f"{dmg_class(dmg_set)}",
+                                {"world": w, "seed": seed, "family": fam,
+                                 "content": "reuse",
+                                 "damage": [list(d) for d in dmg_set]},
+                                {"first": first, "second_after_repair": second,
+                                 "reference": want0}))
+                        res.outcomes["reuse:" + ("ok" if second is not None
+                                     and abs(second - want0) <= 1e-9
+                                     else "stale")] += 1
+                    self.write_state(root, files, changed, restore=True)
         return found
 
     def run_group(self, g):
@@ -519,6 +568,7 @@ class RecheckCheck:
                                    [case["family"]], [dmg], res)
         return [{"sig": s, "detail": d} for s, c, d in found
                 if c["content"] == case["content"]]
+
 
 
 def make(pid):
